@@ -175,6 +175,9 @@ def run_shard(args):
         seen = set()
         nt = set()
         counter = {'i': 0}
+        cur_dir = os.path.join(OUT, 'replay', '.current_%s' % pid)
+        if prop.crash_is_violation:
+            os.makedirs(cur_dir, exist_ok=True)
 
         def record(case, out, index):
             res['evaluations'] += 1
@@ -212,6 +215,9 @@ def run_shard(args):
             if time.time() - t0 > budget:
                 res['budget_hit'] = True
                 return
+            if prop.crash_is_violation:      # if the process dies inside a solver, the parent finds the case it was busy with here
+                with open(os.path.join(cur_dir, 'shard%d.json' % shard), 'w') as fh:
+                    json.dump({'case': case, 'index': i, 'shard': shard}, fh, default=str)
             if os.environ.get('VERIF_TRACE_CASES'):      # debugging aid: which case is a worker busy with?
                 with open('/tmp/vf_cur_%d.json' % os.getpid(), 'w') as fh:
                     json.dump({'case': case, 'index': i, 'shard': shard}, fh, default=str)
@@ -310,8 +316,25 @@ def run_property(pid, tier, seed):
     nshards = NSHARDS
     ctx = mp.get_context('spawn')
     jobs = [(pid, tier, seed, s, nshards) for s in range(nshards)]
-    with cf.ProcessPoolExecutor(max_workers=nshards, mp_context=ctx) as ex:
-        results = list(ex.map(run_shard, jobs))
+    died = []
+    try:
+        with cf.ProcessPoolExecutor(max_workers=nshards, mp_context=ctx) as ex:
+            results = list(ex.map(run_shard, jobs))
+    except cf.process.BrokenProcessPool:
+        # a worker process was killed (segmentation fault inside a solver library): run the shards one per pool so that the
+        # others finish, and report the case the dead worker was busy with
+        results = []
+        for job in jobs:
+            try:
+                with cf.ProcessPoolExecutor(max_workers=1, mp_context=ctx) as ex1:
+                    results.append(ex1.submit(run_shard, job).result())
+            except cf.process.BrokenProcessPool:
+                fn = os.path.join(OUT, 'replay', '.current_%s' % pid, 'shard%d.json' % job[3])
+                if prop.crash_is_violation and os.path.exists(fn):
+                    with open(fn) as fh:
+                        died.append(json.load(fh))
+                else:
+                    raise
 
     # exhaustive / enumerated parts run in the parent (they parallelise themselves)
     enum_info = None
@@ -345,6 +368,14 @@ def run_property(pid, tier, seed):
         budget_hit = budget_hit or r['budget_hit']
         if r['slowest'][0] > slowest[0]:
             slowest = r['slowest']
+    for d in died:
+        b = 'crash:process_died'
+        failures.setdefault(b, {'bucket': b, 'msg': 'the worker process died (killed by a signal, e.g. a segmentation fault inside a solver '
+                                'library) while this generated case was being built / solved', 'case': d['case'], 'index': -1,
+                                'shard': d['shard'], 'count': 0})
+        failures[b]['count'] += 1
+        status['fail'] = status.get('fail', 0) + 1
+        ev += 1
     if enum_info:
         ev += enum_info.get('evaluations', 0)
         nt.update(enum_info.get('nt_hashes', []))
@@ -366,13 +397,22 @@ def run_property(pid, tier, seed):
     if failures:
         calls = 120 if tier == 'quick' else 600
         sj = [(pid, tier, seed, nshards, f, calls) for f in failures.values()]
-        with cf.ProcessPoolExecutor(max_workers=min(nshards, len(sj)), mp_context=ctx) as ex:
-            for f, (case, note) in zip(failures.values(), ex.map(shrink_failure, sj)):
-                shrunk[f['bucket']] = (case, note)
+        # one pool per bucket: a shrink pass that walks into a case which kills its process must not take the others down
+        for f, job in zip(list(failures.values()), sj):
+            if f['bucket'] == 'crash:process_died':
+                continue
+            try:
+                with cf.ProcessPoolExecutor(max_workers=1, mp_context=ctx) as ex:
+                    shrunk[f['bucket']] = ex.submit(shrink_failure, job).result()
+            except cf.process.BrokenProcessPool:
+                shrunk[f['bucket']] = (f['case'], 'unshrunk (the shrink pass met a case that kills the process)')
     matched_known = set()
     for b, f in sorted(failures.items()):
         case, note = shrunk.get(b, (f['case'], 'unshrunk'))
-        out = safe_check(prop, case)
+        if b == 'crash:process_died':         # re-running it here would kill this process too
+            out = Outcome.fail(b, f['msg'])
+        else:
+            out = safe_check(prop, case)
         if out.status != 'fail':      # shrunk case must still fail in this process
             case, note, out = f['case'], note + '; shrunk case did not fail on re-check, kept original', \
                 safe_check(prop, f['case'])
